@@ -54,6 +54,16 @@ var srs = []srDef{
 	// geocentric first leg) and a shifted-datum Mercator that shares the other references with it
 	{"longlat/clrk66+nadgrids", "+proj=longlat +ellps=clrk66 +nadgrids=@conus", [][2]float64{{-100, 40}, {-90, 35}}},
 	{"merc/bessel7p", "+proj=merc +lon_0=0 +ellps=bessel +towgs84=577.326,90.129,463.919,5.137,1.474,5.297,2.4232", [][2]float64{{400000, 6800000}, {-1200000, 5000000}}},
+	// projection methods the package does not implement, under names that contain the names of methods it does
+	// implement (every transformation into or out of them is expected to fail, the same way every time)
+	{"wkt/Transverse_Mercator_South_Orientated", `PROJCS["Lo19",GEOGCS["g",DATUM["Neutral_Datum_One",SPHEROID["WGS 84",6378137,298.257223563],TOWGS84[0,0,0]],PRIMEM["Greenwich",0],UNIT["degree",0.0174532925199433]],PROJECTION["Transverse_Mercator_South_Orientated"],PARAMETER["latitude_of_origin",0],PARAMETER["central_meridian",19],PARAMETER["scale_factor",1],PARAMETER["false_easting",0],PARAMETER["false_northing",0],UNIT["metre",1]]`, [][2]float64{{50000, 3700000}, {-20000, 3300000}}},
+	{"wkt/Hotine_Oblique_Mercator", `PROJCS["rso",GEOGCS["g",DATUM["Neutral_Datum_One",SPHEROID["WGS 84",6378137,298.257223563],TOWGS84[0,0,0]],PRIMEM["Greenwich",0],UNIT["degree",0.0174532925199433]],PROJECTION["Hotine_Oblique_Mercator"],PARAMETER["latitude_of_center",4],PARAMETER["longitude_of_center",102.25],PARAMETER["azimuth",323.0257905],PARAMETER["scale_factor",0.99984],PARAMETER["false_easting",804671],PARAMETER["false_northing",0],UNIT["metre",1]]`, [][2]float64{{400000, 300000}, {500000, 600000}}},
+	{"proj4/tmerc_so", "+proj=transverse_mercator_south_orientated +lon_0=19 +k=1 +datum=WGS84", [][2]float64{{50000, 3700000}, {-20000, 3300000}}},
+}
+
+// expectFail: every transformation that involves the reference is expected to fail.
+func expectFail(i int) bool {
+	return strings.Contains(srs[i].def, "+nadgrids=@conus") || strings.HasPrefix(srs[i].name, "wkt/Transverse_Mercator_South") || strings.HasPrefix(srs[i].name, "wkt/Hotine") || srs[i].name == "proj4/tmerc_so"
 }
 
 func try(f func()) (p string) {
@@ -165,20 +175,20 @@ func main() {
 		return
 	}
 	rep := report.New("C10", tier, "model_checking")
-	rep.Rule = "E2 (stateless, no dedup: closure-captured state cannot be fingerprinted): ALL sequences of up to 4 (thorough 5) operations Build(i,j) / Call(slot, point) over two sets of 5 (6) spatial references parsed once per sequence (set A: 7-parameter tmerc/OSGB36, 3-parameter lcc/potsdam, the registered EPSG:4326 (and EPSG:3857), long/lat with +axis=neu and with +axis=wsu on a 7-parameter datum; set B: three UTM references of which two share a zone on different ellipsoids/datums, EPSG:4326, krovak; set C: Mercator and transverse Mercator pairs that differ only by an omitted +lon_0 / +x_0, EPSG:4326); set D: EPSG:4326, EPSG:3857, a Mercator and a Mercator on the authalic sphere (+R_A) with a third, out-of-domain point each - the pole fails towards Mercator, so sequences contain failing calls, repeated failing calls and calls after a failure); set E: two geographic systems on shifted datums and EPSG:4326 with a latitude of 95 degrees as third point (it fails in the first leg of the WGS84 hop); set F: EPSG:4326, a geographic system whose datum is a grid file (+nadgrids=@conus on Clarke 1866: every call fails after the geocentric leg) and a 7-parameter Bessel Mercator; results (error or coordinates) must be bit-identical, two (set D: three) points per reference; every call must return what a freshly built transformer from freshly parsed definitions returns when called once; the reference values are recomputed after the sweep to detect changes of the registered globals. E1: structure trees of all eight types (vertices on a parabola, so that rings have area; plus members of 1025, 4098 and 5003 (thorough: 16385, 65539) vertices in every flat and nested position, failing call k in {1, 2, n/4+1, n/2, n-1, n} there) x transformers {nil, affine, orientation-reversing affine, fail on the k-th call for every k <= Len}: same type and nesting (*Bounds -> 4-vertex polygon), i-th vertex = t(i-th vertex), input unchanged, error returned, no panic; the same with the input cut from one flat vertex buffer (same output, buffer not written, twice), and the output shares no storage with the input. Non-trivial = sequences that call some transformer at least twice or interleave two transformers."
+	rep.Rule = "E2 (stateless, no dedup: closure-captured state cannot be fingerprinted): ALL sequences of up to 4 (thorough 5) operations Build(i,j) / Call(slot, point) over two sets of 5 (6) spatial references parsed once per sequence (set A: 7-parameter tmerc/OSGB36, 3-parameter lcc/potsdam, the registered EPSG:4326 (and EPSG:3857), long/lat with +axis=neu and with +axis=wsu on a 7-parameter datum; set B: three UTM references of which two share a zone on different ellipsoids/datums, EPSG:4326, krovak; set C: Mercator and transverse Mercator pairs that differ only by an omitted +lon_0 / +x_0, EPSG:4326); set D: EPSG:4326, EPSG:3857, a Mercator and a Mercator on the authalic sphere (+R_A) with a third, out-of-domain point each - the pole fails towards Mercator, so sequences contain failing calls, repeated failing calls and calls after a failure); set E: two geographic systems on shifted datums and EPSG:4326 with a latitude of 95 degrees as third point (it fails in the first leg of the WGS84 hop); set F: EPSG:4326, a geographic system whose datum is a grid file (+nadgrids=@conus on Clarke 1866: every call fails after the geocentric leg) and a 7-parameter Bessel Mercator; set G: EPSG:4326 and three references whose projection method is not implemented but whose name contains implemented ones (Transverse_Mercator_South_Orientated, Hotine_Oblique_Mercator): they must fail the same way every time; results (error or coordinates) must be bit-identical, two (set D: three) points per reference; every call must return what a freshly built transformer from freshly parsed definitions returns when called once; the reference values are recomputed after the sweep to detect changes of the registered globals. E1: structure trees of all eight types (vertices on a parabola, so that rings have area; plus members of 1025, 4098 and 5003 (thorough: 16385, 65539) vertices in every flat and nested position, failing call k in {1, 2, n/4+1, n/2, n-1, n} there) x transformers {nil, affine, orientation-reversing affine, fail on the k-th call for every k <= Len}: same type and nesting (*Bounds -> 4-vertex polygon), i-th vertex = t(i-th vertex), input unchanged, error returned, no panic; the same with the input cut from one flat vertex buffer (same output, buffer not written, twice), and the output shares no storage with the input. Non-trivial = sequences that call some transformer at least twice or interleave two transformers."
 	// (set, depth) pairs: every sequence up to the depth is enumerated over each set
 	type plan struct {
 		use   []int
 		depth int
 		npts  int // points per reference (3: incl. the out-of-domain point; the pole fails towards Mercator)
 	}
-	plans := []plan{{[]int{0, 1, 2, 4, 5}, 4, 2}, {[]int{6, 8, 9, 2, 7}, 4, 2}, {[]int{10, 11, 12, 13, 2}, 4, 2}, {[]int{2, 3, 10, 14}, 4, 3}, {[]int{15, 16, 2}, 4, 3}, {[]int{2, 17, 18}, 4, 2}}
+	plans := []plan{{[]int{0, 1, 2, 4, 5}, 4, 2}, {[]int{6, 8, 9, 2, 7}, 4, 2}, {[]int{10, 11, 12, 13, 2}, 4, 2}, {[]int{2, 3, 10, 14}, 4, 3}, {[]int{15, 16, 2}, 4, 3}, {[]int{2, 17, 18}, 4, 2}, {[]int{2, 19, 20, 21}, 4, 2}}
 	if tier == "thorough" {
 		plans = []plan{
 			{[]int{0, 1, 2, 3, 4, 5}, 4, 2}, {[]int{6, 8, 9, 2, 7, 3}, 4, 2},
 			{[]int{10, 11, 12, 13, 2, 3}, 4, 2},
 			{[]int{0, 1, 2, 5}, 5, 2}, {[]int{6, 8, 9, 2}, 5, 2}, {[]int{0, 6, 3, 4}, 5, 2}, {[]int{1, 7, 8, 5}, 5, 2}, {[]int{10, 11, 12, 13}, 5, 2},
-			{[]int{2, 3, 10, 14}, 5, 3}, {[]int{15, 16, 2}, 5, 3}, {[]int{2, 17, 18, 1}, 5, 2},
+			{[]int{2, 3, 10, 14}, 5, 3}, {[]int{15, 16, 2}, 5, 3}, {[]int{2, 17, 18, 1}, 5, 2}, {[]int{2, 19, 20, 21, 3}, 4, 2},
 		}
 	}
 	ref := map[[3]int]val{}
@@ -197,8 +207,8 @@ func main() {
 					ref[key] = v
 					if v.pan != "" {
 						rep.Violation("fresh-transformer|panic", map[string]interface{}{"from": srs[key[0]].name, "to": srs[key[1]].name, "point": srs[key[0]].pts[key[2]], "panic": v.pan})
-					} else if v.err && key[0] != key[1] && k < 2 && !strings.Contains(srs[key[0]].def+srs[key[1]].def, "+nadgrids=@conus") {
-						// (grid files are not supported: those calls are meant to fail)
+					} else if v.err && key[0] != key[1] && k < 2 && !expectFail(key[0]) && !expectFail(key[1]) {
+						// (grid files and unknown projection methods: those calls are meant to fail)
 						rep.Violation("fresh-transformer|error", map[string]interface{}{"from": srs[key[0]].def, "to": srs[key[1]].def, "point": srs[key[0]].pts[key[2]]})
 					}
 				}
